@@ -8,6 +8,16 @@ with `cache=False`.  model/IterTie.v [check9] judges the pair inside Coq: both r
 against the code model, and — specification side, on the observations alone — identical
 frames / countdown / errors, every uncached frame freshly rendered, no frame rendered
 twice in a row under unchanged settings when caching is on, caching never renders more.
+model/IterWrapTie.v [check9w] adds, for BOTH runs, the history-level oracle of model/IterWrap.v:
+every yielded frame (cache hit or fresh render) has the padded size / padding dimensions of
+the padding and render size in force at its next(), and was rendered at the size, duration
+and arguments in force at its next() — a function of the history and the observations alone.
+
+Round trips: a cache hit is only interesting when something changed between the render that
+filled the entry and the hit.  `roundtrip_case` builds histories in which one setting (render
+size / duration / render arguments / padding) goes A -> B (-> C) -> back to A with a PARTIAL pass
+rendered under B, and frames cached under A are then revisited (next loop or backward seek): the
+hit happens while everything the iterator derives from its settings was last refreshed under B.
 
 The image-iterator half (`ImageIterator._animate`, model owned by C11) is covered here by
 paired cached / uncached runs only (impl/impl_c09_img.py): validation, not proof."""
@@ -20,8 +30,11 @@ import core
 from props import c08 as base
 
 LEVEL = "proof"
-EXTRA_TARGETS = ["model/IterTie.vo"]
+EXTRA_TARGETS = ["model/IterTie.vo", "model/IterWrapTie.vo"]
 N = ["next"]
+HEADER = ("From Coq Require Import List ZArith.\nImport ListNotations.\n"
+          "From TI Require Import model.Iter model.IterSpec model.IterTie model.IterWrap model.IterWrapTie.\n"
+          "Open Scope nat_scope.\n")
 
 
 def gen_case(rng, i):
@@ -46,6 +59,145 @@ def revisit(n, what, loops=3, cache=True):
                           ops=[N] * n + [change] + [N] * n + [back] + [N] * (n + 1))
 
 
+# ----------------------------------------------------------------- setting round trips
+
+RT_SIZES = [[1, 1], [2, 1], [3, 2], [2, 3], [4, 2]]
+RT_PADS = [["E", 0, 0, 0, 0], ["E", 1, 1, 1, 1], ["E", 0, 1, 2, 0], ["A", 5, 4, 0, 0], ["A", 6, 4, 2, 2],
+           ["A", 1, 1, 1, 1], ["A", 0, 0, 1, 1], ["A", -70, -25, 0, 2]]
+RT_VALUES = {"size": RT_SIZES, "dur": [1, 7, 40, None], "args": [0, 1, 2], "pad": RT_PADS}
+RT_MODES = ("loop", "seek0", "back")
+
+
+class _Hist:
+    """History builder that knows which frame is rendered next (`pos` = frame_offset, n = at the
+    end-of-pass boundary) and never lets a finite loop count run out: where the next pass would
+    exhaust the iterator it seeks to frame 0 instead (a seek does not consume a loop)."""
+
+    def __init__(self, n, loops):
+        self.n, self.loops, self.ops, self.pos, self.passes = n, loops, [], 0, 0
+
+    def nexts(self, k):
+        for _ in range(k):
+            if self.pos >= self.n:
+                if 0 < self.loops <= self.passes + 1:
+                    self.seek_to(0)
+                else:
+                    self.passes += 1
+                    self.pos = 0
+            self.ops.append(["next"])
+            self.pos += 1
+
+    def seek_to(self, t, how=0):
+        if how == 0:
+            self.ops.append(["seek", t, 0, True])
+        elif how == 1:
+            self.ops.append(["seek", t - self.pos, 1, True])
+        else:
+            self.ops.append(["seek", t - (self.n - 1), 2, True])
+        self.pos = t
+
+    def set(self, what, v):
+        self.ops.append([what, copy.deepcopy(v)])
+
+
+def rt_leg(h, what, a, b, k1, j, mode, via=None, seek_first=None, how=0, tail=None):
+    """k1 frames under A; B; j frames under B (optionally after a seek); (C; one frame;) back to A;
+    revisit frames rendered under A: rest of this pass and the whole next one / seek(0) and a whole
+    pass / seek back to an earlier frame and `tail` frames."""
+    n = h.n
+    h.nexts(k1)
+    h.set(what, b)
+    if seek_first is not None:
+        h.seek_to(seek_first, how)
+    h.nexts(j)
+    if via is not None:
+        h.set(what, via)
+        h.nexts(1)
+    h.set(what, a)
+    if mode == "loop":
+        h.nexts((n - h.pos) + n)
+    elif mode == "seek0":
+        h.seek_to(0, how)
+        h.nexts(n)
+    else:
+        h.seek_to(max(0, min(h.pos, n) - (tail or 1) - 1), how)
+        h.nexts(n if tail is None else tail + 1)
+
+
+def rt_case(n, what, b, k1, j, mode, loops=2, cache=True, via=None, seek_first=None, how=0, tail=None, **cfg):
+    c = base.base_case(n=n, loops=loops, cache=cache, stamp=True, **cfg)
+    h = _Hist(n, loops)
+    rt_leg(h, what, c[what] if what != "args" or c[what] not in ("none", "base") else 0, b, k1, j, mode,
+           via=via, seek_first=seek_first, how=how, tail=tail)
+    c["ops"] = h.ops
+    return c
+
+
+def _other(rng, what, *avoid):
+    return copy.deepcopy(rng.choice([v for v in RT_VALUES[what] if v not in avoid]))
+
+
+def roundtrip_case(rng, i):
+    """A random history made of 1-2 round trips (the first over setting number i mod 4)."""
+    n = rng.choice([2, 3, 3, 4])
+    loops = rng.choice([2, 3, -1, -1, 1])
+    cfg = {"size": list(rng.choice(RT_SIZES)), "dur": rng.choice(RT_VALUES["dur"]), "args": rng.choice([0, 1, 2, "none"]),
+           "pad": list(rng.choice(RT_PADS)) if rng.random() < 0.6 else ["E", 0, 0, 0, 0]}
+    c = base.base_case(n=n, loops=loops, cache=rng.choice([True, True, n, n + 1, 100]), stamp=True, **cfg)
+    h = _Hist(n, loops)
+    cur = {k: (0 if k == "args" and v == "none" else v) for k, v in cfg.items()}
+    order = ["size", "dur", "args", "pad"]
+    first = order[i % 4]
+    for leg in range(rng.choice([1, 1, 2])):
+        what = first if leg == 0 else rng.choice(order)
+        a = cur[what]
+        b = _other(rng, what, a)
+        via = _other(rng, what, a, b) if rng.random() < 0.2 else None
+        k1 = rng.randint(1, n) if leg == 0 else rng.randint(0, 2)
+        j = min(rng.choice([1, 1, 1, 2, 0]), n - 1)
+        mode = rng.choice(RT_MODES) if loops != 1 else rng.choice(RT_MODES[1:])
+        seek_first = rng.randrange(n) if rng.random() < 0.3 else None
+        if rng.random() < 0.25:  # an unrelated setting changes for good somewhere inside the round trip
+            w2 = rng.choice([w for w in order if w != what])
+            cur[w2] = _other(rng, w2, cur[w2])
+            h.nexts(rng.randint(0, 1))
+            h.set(w2, cur[w2])
+        rt_leg(h, what, a, b, k1, j, mode, via=via, seek_first=seek_first, how=rng.choice([0, 0, 1, 2]),
+               tail=rng.choice([None, 0, 1]))
+    c["ops"] = h.ops
+    return c
+
+
+def roundtrip_sweep():
+    """Thorough tier: every (setting, frame count, frames under A, frames under B, way of revisiting,
+    padding or none, finite or infinite loops) for fixed values A / B."""
+    other = {"size": [3, 2], "dur": 40, "args": 2, "pad": ["A", 6, 4, 2, 2]}
+    out = []
+    for what in ("size", "dur", "args", "pad"):
+        for n in (2, 3, 4):
+            for k1 in range(1, n + 1):
+                for j in range(0, n):
+                    for mode in RT_MODES:
+                        for pad in (["E", 0, 0, 0, 0], ["E", 1, 0, 2, 1]):
+                            for loops in (2, -1):
+                                out.append(rt_case(n, what, other[what], k1, j, mode, loops=loops, pad=pad,
+                                                   size=[2, 1], args=1, dur=7))
+    return out
+
+
+RT_CORPUS = (
+    # size round trip with ONE frame rendered under B, revisit in the next loop (no padding / padding)
+    [rt_case(3, "size", [4, 2], 2, 1, "loop", pad=p) for p in (["E", 0, 0, 0, 0], ["E", 1, 1, 1, 1], ["A", 6, 4, 1, 1])]
+    # the same shape for the other three settings
+    + [rt_case(3, w, b, 2, 1, "loop", pad=["E", 1, 0, 0, 1]) for w, b in (("dur", None), ("args", 2), ("pad", ["A", 5, 4, 0, 0]))]
+    # revisit by a backward seek inside a single loop; by seek(0); through a third value
+    + [rt_case(4, w, b, 3, 1, "back", loops=1, tail=2) for w, b in (("size", [3, 2]), ("dur", 40), ("args", 1), ("pad", ["E", 2, 1, 1, 3]))]
+    + [rt_case(2, "size", [2, 3], 1, 1, "seek0", loops=-1, cache=2),
+       rt_case(3, "size", [2, 3], 3, 1, "loop", loops=3, via=[1, 1], pad=["A", 0, 0, 1, 1]),
+       rt_case(3, "pad", ["A", 0, -2, 1, 1], 3, 2, "seek0", loops=2, via=["E", 0, 0, 0, 0], pad=["E", 1, 1, 1, 1])]
+)
+
+
 CORPUS = (
     [revisit(n, w) for n in (2, 3) for w in ("size", "dur", "args", "pad")]
     + [revisit(3, "args", cache=c) for c in (2, 3, 4, False)]
@@ -66,6 +218,7 @@ CORPUS = (
         # draw()'s rule is exercised by C10's draw cases; here loops = 1 with an explicit cache
         base.base_case(n=3, loops=1, cache=True, stamp=True, ops=[N, N, ["seek", 0, 0, True], N, N, N, N]),
     ]
+    + RT_CORPUS
 )
 
 
@@ -84,7 +237,7 @@ def evaluate(cases, tag="c09"):
     for k, c in enumerate(cases):
         terms.append(f"({base.case_t(c, impl[2 * k])}, {base.case_t(uncached(c), impl[2 * k + 1])})")
     codes = [0] * len(cases)
-    res, errors = core.coq_shards(tag, base.HEADER, terms, "tcase * tcase", "bad9 cases", shard=100)
+    res, errors = core.coq_shards(tag, HEADER, terms, "tcase * tcase", "bad9w cases", shard=100)
     for idx, code in res:
         codes[idx] = code
     return codes, errors, [{"cached": impl[2 * k], "uncached": impl[2 * k + 1]} for k in range(len(cases))]
@@ -101,17 +254,55 @@ def doc_enabled(c):
     return c["cache"] if isinstance(c["cache"], bool) else c["n"] <= c["cache"]
 
 
+def roundtrip_hits(c, r):
+    """(cache hits, hits on an entry filled before a render under another (size, duration, arguments)
+    value that has since been restored, hits on an entry filled under the padding in force now with
+    renders under another padding in between) of the cached run; needs call stamps."""
+    if r["ctor"][0] != "ok" or not c.get("stamp") or c["n"] is None:
+        return 0, 0, 0
+    log, calls, pad_now, pad_at = r["log"], 0, c["pad"], []
+    hits = key_rt = pad_rt = 0
+    for o, x in zip(c["ops"], r["ops"]):
+        out = x[0]
+        if o[0] == "pad" and out[0] == "K":
+            pad_now = o[1]
+        if o[0] != "next":
+            continue
+        if out[0] == "E":
+            calls += 1
+            pad_at.append(pad_now)
+        elif out[0] == "F" and len(out[5]) == 8:
+            st = out[5][7]
+            if st == calls:
+                calls += 1
+                pad_at.append(pad_now)
+            elif 0 <= st < calls <= len(log):
+                hits += 1
+                key_rt += any(l[2:6] != log[st][2:6] for l in log[st + 1:calls])
+                pad_rt += pad_at[st] == pad_now and any(p != pad_now for p in pad_at[st + 1:calls])
+    return hits, key_rt, pad_rt
+
+
 def run(ctx):
     rng = ctx.rng
     if ctx.replay:
         cases = [ctx.replay["replay"]["case"]]
     else:
         ngen = 450 if ctx.quick else 6000
-        cases = [copy.deepcopy(c) for c in CORPUS] + [gen_case(rng, i) for i in range(ngen)]
+        nrt = 160 if ctx.quick else 2400
+        # a generator of their own (derived from the run's seed): the round trips do not shift the
+        # random stream of the other generators of this plugin
+        import random
+        rt_rng = random.Random(ctx.seed * 1000003 + 9)
+        cases = ([copy.deepcopy(c) for c in CORPUS] + [gen_case(rng, i) for i in range(ngen)]
+                 + [roundtrip_case(rt_rng, i) for i in range(nrt)])
+        if not ctx.quick:
+            cases += roundtrip_sweep()
     codes, errors, impl = evaluate(cases)
     failing = [cases[i] for i, code in enumerate(codes) if code >= 2]
     failures = []
     if failing:
+        failing.sort(key=lambda c: len(c["ops"]))  # shrink the smallest ones: fewer, cheaper rounds
         minimal = [base.shrink(c, fails_spec9, "c09s") if k < 2 else c for k, c in enumerate(failing)]
         uniq = {}
         for m in minimal:
@@ -131,9 +322,12 @@ def run(ctx):
     # distribution
     hist = base.histogram(cases, [r["cached"] for r in impl])
     saved, hits, revisits, enabled, setting_changes_then_revisit = 0, 0, 0, 0, 0
+    rt_hits = [0, 0, 0, 0]
     for c, r in zip(cases, impl):
         if r["cached"]["ctor"][0] != "ok":
             continue
+        hk = roundtrip_hits(c, r["cached"])
+        rt_hits = [rt_hits[0] + hk[0], rt_hits[1] + hk[1], rt_hits[2] + hk[2], rt_hits[3] + (hk[1] + hk[2] > 0)]
         lc, lu = len(r["cached"]["log"]), len(r["uncached"]["log"])
         saved += lu - lc
         if doc_enabled(c):
@@ -152,6 +346,10 @@ def run(ctx):
     hist["c09"] = {"pairs_with_caching_enabled_by_the_documented_rule": enabled,
                    "pairs_where_the_cache_saved_renders": hits, "renders_saved_total": saved,
                    "frame_revisits": revisits, "frame_revisits_after_a_setting_change": setting_changes_then_revisit,
+                   "cache_hits": rt_hits[0],
+                   "cache_hits_after_a_round_trip_of_size_duration_or_arguments_with_renders_under_the_other_value": rt_hits[1],
+                   "cache_hits_after_a_padding_round_trip_with_renders_under_the_other_padding": rt_hits[2],
+                   "histories_with_such_a_round_trip_hit": rt_hits[3],
                    "deterministic_frame_faults": sum(1 for c in cases if c.get("ffaults"))}
     extra = {}
     dd = run_draw_decisions(ctx)
@@ -173,11 +371,17 @@ def run(ctx):
         "rule": "corpus (render all frames, change exactly one of size/duration/arguments/padding, revisit, change "
                 "back, revisit; cache limits n-1/n/n+1; INDEFINITE; deterministic per-frame failures) + random "
                 "histories of the C08 generator biased to caching configurations and setter operations, loops "
-                "in {-1,2,3} mostly, call stamps on; each history run with its cache argument and with cache=False. "
+                "in {-1,2,3} mostly, call stamps on; round-trip histories (one of size / duration / arguments / padding "
+                "goes A -> B (-> C) -> A with a partial pass rendered under B, then the frames cached under A are "
+                "revisited by the next loop, seek(0) or a backward seek; 2-4 frames, loops {1,2,3,-1}, with and "
+                "without padding, 1-2 round trips per history; thorough adds the full sweep over setting x frame "
+                "count x frames under A x frames under B x way of revisiting); each history run with its cache "
+                "argument and with cache=False; both runs also judged by the history-level oracle (wrap_okb / "
+                "current_okb: every yielded frame is sized, padded and rendered for the settings in force). "
                 "Non-trivial: caching enabled by the documented rule, >= 4 ops, >= 2 frames, a seek or setter, and "
                 "the cache actually saved at least one render; distinct by full case hash. "
                 "Image iterators: paired cached/uncached ImageIterator runs with set_size between frames.",
-        "samples": [base.describe(c) for c in cases[:2] + cases[len(CORPUS):len(CORPUS) + 3]],
+        "samples": [base.describe(c) for c in cases[:2] + cases[len(CORPUS):len(CORPUS) + 2] + cases[-2:]],
         "histogram": hist,
         "mismatches": mismatches,
         "failures": failures,
@@ -189,6 +393,9 @@ def run(ctx):
             "renderable once call stamps are erased; no_rerender_unchanged needs no such assumption",
             "cache keys are compared by value ((size, duration, render_args) tuple equality), arguments are "
             "identified with their field values",
+            "wrap_current assumes the contract of _render_ (render_honours_size: the returned frame has the "
+            "requested size; true of the instrumented renderable, lemma wex_honours); padded_is_current and "
+            "settings_by_history assume nothing about the renderable",
             "the image iterator half (ImageIterator._animate) is validated by paired runs only; its model and "
             "theorems belong to C11",
         ],
